@@ -24,11 +24,11 @@ ImplPunct(r) == {r.pl[i] : i \in 1..Len(r.pl)}
 ImplCoverOK(r, P) ==
   LET K  == ImplNodes(r)
       PL == PLevels(P)
-  IN /\ Cardinality(K) = Len(r.nodes)
-     /\ \A n \in K : n[1] \in 0..Depth /\ n[2] < 2^n[1]                  \* (level 0: the root itself)
-     /\ \A n \in K : \A k \in 0..(n[1] - 1) : <<k, n[2] % (2^k)>> \notin K   \* disjoint
+  IN /\ \A n \in K : n[1] \in 0..Depth /\ n[2] < 2^n[1]                  \* (level 0: the root itself)
      /\ \A n \in K : n[2] \notin PL[n[1]]                                  \* no punctured input covered
-     /\ SumSizes(K) = N - Cardinality(P)                                   \* every other input covered
+     \* every other input is covered — at least once (a non-minimal or overlapping cover, e.g.
+     \* cached leaf values of live inputs, retains nothing about punctured ones)
+     /\ (Inputs \ P) \subseteq UNION {{n[2] + (2^n[1]) * i : i \in 0..(2^(Depth - n[1]) - 1)} : n \in K}
 ImplForwardSecure(r, P) ==
   LET PL == PLevels(P) IN \A n \in ImplNodes(r) : n[2] \notin PL[n[1]]
 
